@@ -369,8 +369,27 @@ class C05(Property):
             used_keys.add(key)
             ps.append({"core": simple(a * u, b * u), "loc": area((a - nb) * u, (b + nb) * u, length, circular),
                        "product": product, "sideloaded": sideloaded})
+        if circular and rng.random() < 0.6:
+            # a protocluster whose CORE spans the origin, with core genes on either side, and further genes of the same
+            # product inside its neighbourhood but outside its core (they belong to a neighbouring protocluster)
+            product = rng.choice(products)
+            a, b = rng.randrange(92, 98), rng.randrange(2, 8)
+            nb = rng.choice([6, 10, 14])
+            key = (product, a, b)
+            used_keys.add(key)
+            ps.append({"core": crossing(a * u, length, b * u), "loc": crossing((a - nb) * u, length, (b + nb) * u),
+                       "product": product, "sideloaded": rng.random() < 0.15})
+            add_gene(a, a + 2, [product])
+            if rng.random() < 0.6:
+                add_gene(0, b, [product])
+            for side in rng.sample(["after", "before"], rng.choice([1, 2])):
+                q = b + rng.choice([1, 2, 4]) if side == "after" else a - rng.choice([3, 4, 6])
+                other = rng.choice([product, product, rng.choice(products)])
+                add_gene(q, q + 2, [other])
+                if rng.random() < 0.8:
+                    add_proto(q - rng.choice([0, 1]), q + 2 + rng.choice([0, 1]), rng.choice([0, 2, 5]), other, False)
         k = rng.choice([1, 2, 2, 3])
-        pos = sorted(rng.sample(range(8, 88, 4), k))
+        pos = sorted(rng.sample(range(16, 80, 4), k))
         for a in pos:
             product = rng.choice(products)
             w = rng.choice([4, 8, 14])
@@ -424,21 +443,23 @@ class C05(Property):
             for n in (1, 2, 3):
                 combos = itertools.combinations_with_replacement(range(len(protos)), n)
                 for combo in combos:
-                    if n == 3 and not full and rng.random() > 0.015:
+                    if n == 3 and not full and rng.random() > 0.008:
+                        continue
+                    if n == 2 and not full and rng.random() > 0.5:
                         continue
                     total += 1
                     yield {"wrap": wrap, "len": 12, "ps": name_products([protos[i] for i in combo])}
-            for _ in range(2000 if full else 300):
+            for _ in range(2000 if full else 200):
                 combo = sorted(rng.randrange(len(protos)) for _ in range(4))
                 total += 1
                 yield {"wrap": wrap, "len": 12, "ps": name_products([protos[i] for i in combo])}
         self.exhaustive_done = full
         self.extra_coverage = {"small_scope_cases": total, "small_scope_record_length": 12,
-                               "small_scope_complete_up_to": 3 if full else 2}
+                               "small_scope_complete_up_to": 3 if full else 1}
 
     def cases(self, rng: random.Random, tier: str, deep: bool) -> Iterator[Dict[str, Any]]:
-        n_random = 8000 if deep else 1900
-        n_directed = 6000 if deep else 1000
+        n_random = 8000 if deep else 1400
+        n_directed = 6000 if deep else 800
 
         def with_perms(case: Dict[str, Any], small: bool = False) -> Dict[str, Any]:
             n = len(case["ps"])
@@ -449,7 +470,7 @@ class C05(Property):
             else:
                 case["perms"] = "all" if n <= 3 else 6
             return case
-        for _ in range(2500 if deep else 400):
+        for _ in range(2500 if deep else 350):
             yield with_perms(self.record_case(rng))
         for _ in range(n_directed):
             yield with_perms(self.directed_case(rng))
